@@ -333,7 +333,8 @@ def r5(repo, res, m, V):
     try:
         S = build_structures(f, configs, 3, "5")
         x = {k: round(0.11 + 0.09 * i + 0.017 * VAL_SEED * ((i * 3) % 5), 3) for i, k in enumerate(sorted(S, key=str))}
-        prof = Obj(cn_diff=10.0, cn_fit=1.0, cn_parsimony=0.5, cn_fusion_left=0.5, cn_fusion_right=0.25, cn_pce_penalty=2.0,
+        # deliberately not the defaults: a coefficient tied to the wrong parameter (or to a literal equal to a default) shows
+        prof = Obj(cn_diff=4.0, cn_fit=3.0, cn_parsimony=0.7, cn_fusion_left=0.6, cn_fusion_right=0.15, cn_pce_penalty=1.5,
                    cn_max=20, gap=0.0)
         gene = Obj(unique_regions=REG, cn_configs=configs, name="G")
         env = {"profile": prof, "gene": gene, "CNConfigType": CT, V: {k: k for k in S}}
@@ -355,8 +356,8 @@ def r5(repo, res, m, V):
         le = LinEval(env, lambda fam, keys, comp: x[keys[0] if len(keys) == 1 else keys], atomval=atomval)
         got = le.lin(obj)
         U = len(REG)
-        pen = {"1": 7.5 / U, "5": 7.5 / U, "PSEUDO": 7.5 / U, "36": 7.5 / U * (1 + 0.25), "68": 7.5 / U * (1 + 0.5)}
-        want = 10.0 / U * A["diff"] + 1.0 / U * A["fit"] + 0.5 * sum(pen[k[0]] * x[k] for k in S)
+        pen = {"1": 7.5 / U, "5": 7.5 / U, "PSEUDO": 7.5 / U, "36": 7.5 / U * (1 + prof.cn_fusion_right), "68": 7.5 / U * (1 + prof.cn_fusion_left)}
+        want = prof.cn_diff / U * A["diff"] + prof.cn_fit / U * A["fit"] + prof.cn_parsimony * sum(pen[k[0]] * x[k] for k in S)
     except (Unfoldable, Raised, KeyError) as e:
         res.err("C03.R5", f"objective outside folding language: {e}")
         return
@@ -466,7 +467,7 @@ def r7(repo, res):
         return ("CN", score, list(sols))
 
     try:
-        g = Obj(cn_configs={"1": 1, "5": 1}, name="G")
+        g = Obj(cn_configs={"1": Obj(kind=CT.DEFAULT), "5": Obj(kind=CT.DELETION)}, name="G", deletion_allele=lambda: "5", do_copy_number=True, chr="22")
         k1, v1 = Evaluator({"gene": g, "sols": ["1", "5", "1"]}, funcs={"CNSolution": ctor}).run(p.body[1:] if isinstance(p.body[0], ast.Expr) else p.body)
         k2, v2 = Evaluator({"gene": g, "sols": ["1", "9"]}, funcs={"CNSolution": ctor}).run(p.body[1:] if isinstance(p.body[0], ast.Expr) else p.body)
     except (Unfoldable, Raised) as e:
